@@ -327,3 +327,6 @@ RULES.append(lazy("C02", "r_message_dedup", "a failure message whose first trans
 
 from .shm import r_client_failures  # noqa: E402
 RULES.append(r_client_failures)
+from .shm import r_server_shutdown  # noqa: E402
+RULES.append(r_server_shutdown)
+RULES.append(lazy("C10", "r4_r6_outputs", "a generator task yielding fewer or more values than it declares must fail (TaskFailure): its last output is never published otherwise and the controller waits for ever"))
